@@ -638,9 +638,9 @@ class IH5Group(IH5InnerNode):
         dst_name: str
         if isinstance(dest, str):
             # if dest is a path, ignore inferred/passed name
-            segs = self._abs_path(dest).split("/")
-            dst_group = self.require_group("/".join(segs[:-1]) or "/")
-            dst_name = segs[-1]
+            # (missing parent groups are created when copying, after reading the source)
+            dst_group = self["/"]
+            dst_name = self._abs_path(dest).strip("/")
         else:
             # given dest is a group node, use inferred/passed name
 
@@ -735,6 +735,14 @@ def h5_copy_from_to(
         node = target_group.create_dataset(target_path, data=source_node[()])
         copy_attrs(source_node, node)  # copy dataset attributes
     else:
+        # collect source children first (the target may be located inside the source,
+        # then only the nodes existing before the copy must be copied, like h5py does)
+        src_children = []
+        if shallow:  # only immediate children
+            src_children += source_node.items()
+        else:  # recursive copy
+            source_node.visititems(lambda name, child: src_children.append((name, child)))
+
         trg_root = target_group.create_group(target_path)
         copy_attrs(source_node, trg_root)  # copy source node attributes
 
@@ -746,8 +754,5 @@ def h5_copy_from_to(
                 trg_root.create_group(name)
             copy_attrs(src_child, trg_root[name])
 
-        if shallow:  # only immediate children
-            for name, src_child in source_node.items():
-                copy_children(name, src_child)
-        else:  # recursive copy
-            source_node.visititems(copy_children)
+        for name, src_child in src_children:
+            copy_children(name, src_child)
